@@ -20,7 +20,7 @@ Monitors
   M3  matrix pencil on exact k-exponential correlators returns the energies as observables.
 Numerical judgement domain: a (t, state) entry is judged when the rounding error a Cholesky-reduced
 pencil can deliver there (eps * cond G(t0) * lambda_max / lambda_n resp. / gap_n, calibrated bounds
-of ref.gevp) stays below 1e-8; the tolerance is 100x (values) / 1000x (fluctuations) that bound.
+of ref.gevp) stays below 1e-8; the tolerance is 20x (values) / 100x (fluctuations) that bound.
 """
 import numpy as np
 
@@ -54,10 +54,10 @@ RULE = ('cases: correlator matrices G(t) = Z F(t) Z^T from N = 2..5 Obs-valued e
         'numerical judgement domain was compared with the exact spectrum and the inputs fluctuate; '
         'distinct = digest of (energies, overlaps, T, t0, ts, options)')
 ASSUMPTIONS = ['numerical judgement domain: entries whose expected rounding error eps*cond(G(t0))*lambda_max(t)/lambda_n(t) (eigenvalues) or '
-               'eps*cond(G(t0))*lambda_max(t)/gap_n(t) (vectors) exceeds 1e-8 are counted, not judged, tolerance 100x the bound; fluctuations of vector_obs results: bound '
-               'eps*cond*(lambda_max/gap_n)^2 (derivative of an eigenvector), judged below 1e-9, tolerance 1000x; '
+               'eps*cond(G(t0))*lambda_max(t)/gap_n(t) (vectors) exceeds 1e-8 are counted, not judged, tolerance 20x the bound; fluctuations of vector_obs results: bound '
+               'eps*cond*(lambda_max/gap_n)^2 (derivative of an eigenvector), judged below 1e-9, tolerance 100x; '
                'the bounds were calibrated on 3e5 exact pencils incl. level crossings (observed/bound <= 2.5 for values, <= 11 for fluctuations)',
-               'matrix pencil: tolerance 500 (values) / 3e4 (fluctuations) * eps * s_1/s_k of the shifted Hankel matrix, judged when <= 1e-6',
+               'matrix pencil: tolerance 200 (values) / 1e4 (fluctuations) * eps * s_1/s_k of the shifted Hankel matrix, judged when <= 1e-6',
                'entries of the returned lists at t <= t0 are not judged (the eigen-problem is degenerate there)',
                'the input matrices are produced by derived_observable with the analytic Jacobian (judged by C01); their fluctuations are read back from the Obs',
                'cond = condition number of the equilibrated matrix D^-1 G(t0) D^-1 + 10 (the algorithms are covariant under a rescaling of the operators; '
@@ -68,6 +68,7 @@ ASSUMPTIONS = ['numerical judgement domain: entries whose expected rounding erro
                'contract of the solver the lower triangle is used, so the oracle adds that backward error (100 * delta / eps) to the condition number: '
                'such cases are judged by the residual / solver monitor only (counted as tiny_asymmetry_seen_as_symmetric)',
                'non-finite (NaN) timeslices are outside the quantifier: the fallback branch of _GEVP_solver (except LinAlgError/TypeError/ValueError) is not judged',
+               'replica means (r_values) of the results are compared with the model at the replica means as telemetry only: the statement names the energies and their fluctuations, not replica means; observed: mpm / linalg.eig can return the replica mean of another level (unsorted np.linalg.eig re-evaluated at the replica means), GEVP next to level crossings likewise',
                'rejection rows only demand that an exception is raised (N = 1, ts <= t0, missing ts, unknown sort, Ntrunc >= N, non-positive G(t0), undefined t0, mpm p / k limits)']
 BUDGET = {'quick': 40, 'thorough': 400}
 
@@ -75,7 +76,7 @@ PE = None
 CTX = None
 EPS = R.EPS
 THR = 1e-8          # judgement domain for the calibrated error bound
-FV, FD = 100.0, 1000.0
+FV, FD = 20.0, 100.0      # observed / calibrated bound <= 2.8 (values), <= 11 (fluctuations) over > 1e6 judged entries
 
 
 # ------------------------------------------------------------------------------------------
@@ -168,8 +169,8 @@ class SolverMonitor(taps.Monitor):
         method = kwargs.get('method', args[2] if len(args) > 2 else 'eigh')
         ray = np.array([R.rayleigh(V[n], A, B) for n in range(N)])
         worst = max(R.residual(V[n], ray[n], A, B) for n in range(N))
-        bound(ctx, worst, 1e-14 + 30 * EPS * kappa, 'solver:eigen-equation-residual', method=method, N=N, cond=kappa)
-        tol = 1e-13 + 100 * EPS * kappa
+        bound(ctx, worst, 1e-14 + 10 * EPS * kappa, 'solver:eigen-equation-residual', method=method, N=N, cond=kappa)
+        tol = 1e-13 + 20 * EPS * kappa
         top = float(np.max(np.abs(ray)))
         bound(ctx, float(np.max(ray[1:] - ray[:-1])), tol * top, 'solver:order-not-descending', method=method, rayleigh=ray)
         a, b = R.pencil_eigenvalues(A, B)
@@ -268,7 +269,7 @@ STATES = ['prange', 'tag', 'gm', 'presym']
 
 
 def make_model(rng, N, T, t0, ts, kind='exp', nonsym=False, nonepat='no', min_defined=None, chains=None, scale=None,
-               share=None, rep=None, state=None, spect=None, block=None, asym=None, like=None):
+               share=None, rep=None, state=None, spect=None, block=None, asym=None, like=None, neardeg=None):
     """kind: 'exp' | 'cross'.  nonepat: 'no' | 'pad' | 'int' | 'many'.
     scale: 'unit' | 'global' (matrix times c in 1e-8..1e8) | 'rows' (operator normalisations spanning 4 orders of magnitude).
     share: overlaps drawn from a pool of N Obs, each used at N matrix positions (circulant Z).
@@ -287,8 +288,11 @@ def make_model(rng, N, T, t0, ts, kind='exp', nonsym=False, nonepat='no', min_de
     if share is None:
         share = bool(rng.random() < 0.15)
     if scale is None:
-        scale = str(rng.choice(['unit', 'unit', 'global', 'rows', 'rows+global']))
-    if share and 'rows' in scale:
+        scale = str(rng.choice(['unit', 'unit', 'global', 'rows', 'rows+global', 'onerow']))
+    if neardeg is None:
+        neardeg = bool(like is None and rng.random() < 0.1)
+    m.neardeg = neardeg
+    if share and ('rows' in scale or scale == 'onerow'):
         scale = 'global'
     if spect is None:
         spect = str(rng.choice(['none', 'none', 'none', 'first', 'last']))
@@ -302,12 +306,22 @@ def make_model(rng, N, T, t0, ts, kind='exp', nonsym=False, nonepat='no', min_de
     m.scale, m.share, m.spect, m.block = scale, share, spect, block
     c = 10.0 ** rng.uniform(-8, 8) if 'global' in scale else 1.0
     d = 10.0 ** rng.uniform(-2, 2, size=N) if 'rows' in scale else np.ones(N)
+    if scale == 'onerow':                                   # tiny / huge normalisation in ONE slot only
+        d[int(rng.integers(0, N))] = 10.0 ** float(rng.choice([-6, -5, 5, 6]))
     d = d * np.sqrt(c)
     if like is not None:
         d = like.d
     m.d = d
     sig = 10.0 ** rng.uniform(-4, -2)
-    Eo = [mk_obs(rng, x, sig, ce) for x in rand_spectrum(rng, N, t0)]
+    spec = rand_spectrum(rng, N, t0)
+    sigE = sig
+    if neardeg:
+        # near, not at, a degeneracy: one gap of 1e-3 .. 3e-2 (still non-degenerate; the conditioning bounds decide what is judged)
+        i = int(rng.integers(0, N - 1))
+        gap = 10.0 ** rng.uniform(-3, -1.5)
+        spec[i + 1:] -= (spec[i + 1] - spec[i]) - gap
+        sigE = min(sig, gap / 50)
+    Eo = [mk_obs(rng, x, sigE, ce) for x in spec]
     Z0 = rand_overlaps(rng, N, circulant=share)
     if block:
         Z0[0, 1:] = 0.0
@@ -329,7 +343,7 @@ def make_model(rng, N, T, t0, ts, kind='exp', nonsym=False, nonepat='no', min_de
         Zo = [o - o.value + float(x) for o, x in zip(Zo, like.Z.ravel())]
     m.E = np.array([o.value for o in Eo])
     m.Z = np.array([o.value for o in Zo]).reshape(N, N)
-    if np.min(np.diff(m.E)) < 0.14 or np.linalg.cond(m.Z / d[:, None]) > 40:
+    if np.min(np.diff(m.E)) < (5e-4 if neardeg else 0.14) or np.linalg.cond(m.Z / d[:, None]) > 40:
         raise Skip()
     m.b = m.e = None
     if like is not None:
@@ -459,6 +473,21 @@ def make_model(rng, N, T, t0, ts, kind='exp', nonsym=False, nonepat='no', min_de
     m.corr = corr
     m.dE = {c_: np.array([obs_deltas(o, m.chains)[c_] for o in Eo]) for c_ in m.chains}
     m.dZ = {c_: np.array([obs_deltas(o, m.chains)[c_] for o in Zo]).reshape(N, N, -1) for c_ in m.chains}
+    # secondary output: replica means.  Every result carries r_values = the result evaluated at the replica means of the inputs
+    # (an input that does not live on a chain enters with its central value); informative where an ensemble has several replicas.
+    ens_count = {}
+    for c_ in m.chains:
+        ens_count[c_.split('|')[0]] = ens_count.get(c_.split('|')[0], 0) + 1
+    m.rv = {}
+    for c_ in m.chains:
+        if ens_count[c_.split('|')[0]] > 1:
+            Er = np.array([o.r_values.get(c_, o.value) for o in Eo])
+            Zr = np.array([o.r_values.get(c_, o.value) for o in Zo]).reshape(N, N)
+            Gr = R.matrices(Er, Zr, T, m.b, m.e, jac=False)
+            Gr = 0.5 * (Gr + Gr.transpose(0, 2, 1))
+            if W is not None:
+                Gr = Gr + W * qo.r_values.get(c_, qo.value)
+            m.rv[c_] = (R.F_of(Er, T, m.b, m.e), Gr)
     m._dG = None
     m.kappa = {}
     m.fluctuates = any(np.any(v != 0) for v in m.dE.values())
@@ -542,9 +571,13 @@ def judge_vectors_at(ctx, m, t0, ts, t, sort, method, vo, vs):
     ray = [R.rayleigh(v, Gt, G0) for v in fv]
     # eigen-equation with the eigenvalue from the returned vector (always judged: backward stable)
     worst = max(R.residual(fv[n], ray[n], Gt, G0) for n in range(N))
-    bound(ctx, worst, 1e-14 + 30 * EPS * kap, 'gevp:eigen-equation-residual', **what)
+    bound(ctx, worst, 1e-14 + 10 * EPS * kap, 'gevp:eigen-equation-residual', **what)
+    # normalisation on its own: v^T G(t0) v = 1 for every state, whatever the gaps (backward stable)
+    nrm = max(abs(float(v @ G0 @ v) - 1.0) for v in fv)
+    ctx.count('judged:normalisation')
+    bound(ctx, nrm, 1e-14 + 10 * EPS * kap, 'gevp:v^T-G(t0)-v-is-not-1', **what)
     if sort != 'Eigenvector':
-        bound(ctx, float(np.max(np.diff(ray))), (1e-13 + 100 * EPS * kap) * max(abs(r) for r in ray), 'order:eigenvalues-not-descending',
+        bound(ctx, float(np.max(np.diff(ray))), (1e-13 + 20 * EPS * kap) * max(abs(r) for r in ray), 'order:eigenvalues-not-descending',
               rayleigh=ray, **what)
     exp_lab = [label(m, t0, ts, sort, t, n) for n in range(N)]
     est_v = [R.err_vector(kap, lam_t, l) for l in exp_lab]
@@ -589,7 +622,7 @@ def judge_vectors_at(ctx, m, t0, ts, t, sort, method, vo, vs):
                   state=n, got=ray[n], exp=lam_t[l], **what)
         aligned[n] = s * fv[n]
         if vo and est_d[n] <= 0.1 * THR:
-            judge_vector_fluctuations(ctx, m, t0, vs[n], l, s, 1e-10 + FD * est_d[n], dict(what, state=n))
+            judge_vector_fluctuations(ctx, m, t0, vs[n], l, s, 1e-12 + FD * est_d[n], dict(what, state=n))
     if ok_states and m.fluctuates:
         ctx.nontrivial.add(digest(m.key, sort, method, vo))
     return aligned
@@ -692,6 +725,25 @@ def judge_projected(ctx, m, t0, ts, sort, n, corr, vo, fvec, what):
             continue
         ctx.count('projected_values_judged')
         jclose(ctx, o.value, lam_t[l], 'projected:value-is-not-F_n(t)/F_n(t0)', 't=%d' % t, rtol=1e-12 + FV * est_l, detail=what)
+        for c, (Fr, Gr) in m.rv.items():
+            if c not in o.r_values:
+                continue
+            ctx.count('observed:replica-means:projected')
+            if vo:
+                # the exact observable evaluated at the replica means of the energies; sorting is a discontinuous function, so next to
+                # a level crossing the state of rank n at the replica means may be another one than at the central values: both admissible
+                lr = label(m, t0, ts, sort, t, n) if sort is None else \
+                    (R.order_at(Fr, t0, t)[n] if sort == 'Eigenvalue' else R.order_at(Fr, t0, ts)[n])
+                cands = sorted({l, lr})
+                best = min(cands, key=lambda x: abs(o.r_values[c] - Fr[t, x] / Fr[t0, x]))
+                # telemetry only: the property does not name replica means (decision recorded in DESIGN.md)
+                okr = abs(o.r_values[c] - Fr[t, best] / Fr[t0, best]) <= (1e-12 + 2 * FV * est_l) * abs(Fr[t, best] / Fr[t0, best])
+                ctx.count('gevp_replica_means_agree' if okr else 'gevp_replica_means_in_another_state_order_or_differ')
+            else:
+                v_ = fvec[t] if isinstance(fvec, list) else fvec
+                if v_ is not None:
+                    okr = abs(o.r_values[c] - float(v_ @ Gr[t] @ v_)) <= 1e-13 * float(np.abs(v_) @ np.abs(Gr[t]) @ np.abs(v_))
+                    ctx.count('gevp_replica_means_agree' if okr else 'gevp_replica_means_in_another_state_order_or_differ')
         if not vo:
             v = fvec[t] if isinstance(fvec, list) else fvec
             if v is None:
@@ -707,7 +759,7 @@ def judge_projected(ctx, m, t0, ts, sort, n, corr, vo, fvec, what):
                 exp = np.einsum('i,j,ijc->c', v, v, arr[t])
                 scale = float(np.einsum('i,j,ij->', np.abs(v), np.abs(v), np.max(np.abs(arr[t]), axis=2)))
                 jclose(ctx, obs_deltas(o, m.chains)[c], exp, 'projected:fluctuations-at-fixed-vector', 't=%d chain %s' % (t, c),
-                          rtol=1e-11, scale=max(scale, 1e-300), detail=what)
+                          rtol=1e-13, scale=max(scale, 1e-300), detail=what)
         elif est_d <= 0.1 * THR:
             names = obs_chain_names(o)
             # the exact observable depends on E_label only
@@ -718,7 +770,7 @@ def judge_projected(ctx, m, t0, ts, sort, n, corr, vo, fvec, what):
                         float(lam_t[l]) * max(float(np.max(np.abs(m.dE[c][l]))) for c in m.chains), 1e-300)
             for c in m.chains:
                 jclose(ctx, obs_deltas(o, m.chains)[c], exp[c], 'vector_obs:projected-fluctuations-are-not-those-of-F_n(t)/F_n(t0)',
-                          't=%d chain %s' % (t, c), rtol=1e-10 + FD * est_d, scale=scale, detail=what)
+                          't=%d chain %s' % (t, c), rtol=1e-12 + FD * est_d, scale=scale, detail=what)
             jc(ctx, 'vector_obs:projected-chain-names')
             if not set(exp_names) <= set(names):
                 ctx.ev()
@@ -890,10 +942,10 @@ def judge_default_projection(ctx, m, what):
         if not jrequire(ctx, item is not None, 'projected:defined-slice-is-None', dict(what, t=t, via='projected()')):
             continue
         o, ref = item[0], m.Gobs[t, 0, 0]
-        jclose(ctx, o.value, ref.value, 'projected:default-vector-is-not-element-00', 't=%d value' % t, rtol=1e-13, detail=what)
+        jclose(ctx, o.value, ref.value, 'projected:default-vector-is-not-element-00', 't=%d value' % t, rtol=1e-15, detail=what)
         for c in m.chains:
             g, e = obs_deltas(o, m.chains)[c], obs_deltas(ref, m.chains)[c]
-            jclose(ctx, g, e, 'projected:default-vector-is-not-element-00', 't=%d chain %s' % (t, c), rtol=1e-12,
+            jclose(ctx, g, e, 'projected:default-vector-is-not-element-00', 't=%d chain %s' % (t, c), rtol=1e-15,
                    scale=max(float(np.max(np.abs(e))), abs(ref.value) * 1e-6, 1e-300), detail=what)
 
 
@@ -1068,7 +1120,7 @@ def do_prune(ctx, rng, m, Ntrunc, t0b, idx):
             got_d = np.array([[obs_deltas(item[i, j] if item.ndim == 2 else item[0], m.chains)[c] for j in range(Ntrunc)] for i in range(Ntrunc)])
             scale = float(np.einsum('ai,ab,bj->ij', np.abs(Vall), np.max(np.abs(arr[t]), axis=2), np.abs(Vall)).max())
             jclose(ctx, got_d, exp_d, 'prune:fluctuations-are-not-v_i^T-dG-v_j', 't=%d chain %s' % (t, c),
-                      rtol=1e-11 + tolv, scale=max(scale, 1e-300), detail=what)
+                      rtol=1e-13 + tolv, scale=max(scale, 1e-300), detail=what)
     if m.fluctuates:
         ctx.nontrivial.add(digest(m.key, 'prune', Ntrunc))
     # energies of the kept states are preserved: GEVP on the pruned matrix
@@ -1122,7 +1174,7 @@ def do_prune(ctx, rng, m, Ntrunc, t0b, idx):
                             float(lam_b[k]) * max(float(np.max(np.abs(m.dE[c][kept[k]]))) for c in m.chains), 1e-300)
                 for c in m.chains:
                     jclose(ctx, obs_deltas(o, m.chains)[c], exp[c], 'prune:vector_obs-fluctuations-of-kept-energies-not-preserved',
-                              'state %d t=%d chain %s' % (n, t, c), rtol=1e-10 + FD * est_f, scale=scale,
+                              'state %d t=%d chain %s' % (n, t, c), rtol=1e-12 + FD * est_f, scale=scale,
                               detail=dict(what, t0=t0b, sort=sortb))
     ctx.sample({'prune': what, 'kept_states': kept, 'E': m.E})
 
@@ -1257,7 +1309,7 @@ def case_solver(ctx, rng, idx):
     if not vo:
         a = np.asarray(solver(Gt, G0, method='cholesky', chol_inv=np.linalg.inv(L)))
         b = np.asarray(solver(Gt, G0, method='cholesky'))
-        jclose(ctx, a, b, 'solver:precomputed-and-internal-cholesky-factor-differ', 'vectors', rtol=1e-9 + FV * EPS * kappa(m, t0), detail=what)
+        jclose(ctx, a, b, 'solver:precomputed-and-internal-cholesky-factor-differ', 'vectors', rtol=1e-13 + FV * EPS * kappa(m, t0), detail=what)
     if m.fluctuates:
         ctx.nontrivial.add(digest(m.key, 'solver', t, vo))
 
@@ -1420,8 +1472,8 @@ def case_mpm(ctx, rng, k, idx, j=0):
         return
     ref, ratio, s = R.pencil_energies(c, k, p)
     what['s_k/s_1'] = ratio
-    vtol = 1e-12 + 500 * EPS / ratio
-    dtol = 1e-11 + 3e4 * EPS / ratio
+    vtol = 1e-13 + 200 * EPS / ratio
+    dtol = 1e-12 + 1e4 * EPS / ratio
     if vtol > 1e-6 or np.max(np.abs(ref - E) / E) > vtol:
         ctx.count('mpm_ill_conditioned_not_judged')
         return
@@ -1433,6 +1485,19 @@ def case_mpm(ctx, rng, k, idx, j=0):
         return
     for n in range(k):
         ctx.count('mpm_energies_judged')
+        for cn in chains:
+            if cn in Eo[n].r_values and cn in en[n].r_values and len([x for x in chains if x.split('|')[0] == cn.split('|')[0]]) > 1:
+                ctx.count('observed:replica-means:mpm')
+                # telemetry only (the property names the energies, not their replica means): linalg.eig re-evaluates the unsorted
+                # np.linalg.eig at the replica means, so a level may carry the replica mean of another level
+                got_all = sorted(float(x.r_values[cn]) for x in en)
+                exp_all = sorted(float(x.r_values[cn]) for x in Eo)
+                if abs(en[n].r_values[cn] - Eo[n].r_values[cn]) <= 2 * vtol * abs(Eo[n].r_values[cn]):
+                    ctx.count('mpm_replica_means_agree')
+                elif np.allclose(got_all, exp_all, rtol=2 * vtol, atol=0):
+                    ctx.count('mpm_replica_means_in_another_level_order')
+                else:
+                    ctx.count('mpm_replica_means_differ')
         if hostile:
             ctx.count('mpm_mixed_sign_energies_judged')
             if square and pe_ > k:
@@ -1501,8 +1566,8 @@ def case_mpm_set(ctx, rng, k, idx):
         return
     ref, ratio, sv = R.pencil_energies_set(cs, k, p)
     what['s_k/s_1'] = ratio
-    vtol = 1e-12 + 500 * EPS / ratio
-    dtol = 1e-11 + 3e4 * EPS / ratio
+    vtol = 1e-13 + 200 * EPS / ratio
+    dtol = 1e-12 + 1e4 * EPS / ratio
     if vtol > 1e-6 or np.max(np.abs(ref - E) / E) > vtol:
         ctx.count('mpm_ill_conditioned_not_judged')
         return
